@@ -60,6 +60,14 @@ CLAIMED = {
          "Static decision that the number of bytes an Rread/Rreaddir may carry is bounded on every path by (negotiated msize − 11 or more), 11 = headerLength + FixedSize being computed from the codec rather than assumed, that no other reply carries an out-of-band payload, and that the client's payload size is roundDown(adopted msize − S, 512) with S (153, computed) covering header+fixed part of Twrite (23) and Rread (11), computed after the options and again after negotiation, with no unsigned underflow. Right level: 'never exceeds' is a bound on a length expression visible in the code; concrete frame sizes are not needed.",
          "Assumes a backend's ReadAt returns n <= len(p). Frame sizes for concrete directory contents are not computed: the limit handed to the encoder is (C01.r9 shows the encoder enforces it).",
          "DESIGN.md section 4 C13"),
+ "C03": ("table extraction and composition: per-method request-field tables from the client (literals, message variables, later field assignments, Tu* wrappers) composed with per-handler backend-argument/result tables from the server; guard facts for version gating; stage-order rule on ExtractErrno",
+         "Static decision that for each File method the client sets every fid field (own fid, parameter files' fids, fresh fids) and sends each parameter in exactly one request field, that the handler of that request type calls the corresponding File method on the looked-up File of the self-fid field with arguments taken from the same fields in the same positions, that results travel back through the same reply fields in the same positions, that extension messages are built only under their version predicate (thresholds 3 and 2) with the documented uid/gid dropping otherwise, that every error reply is ExtractErrno of the backend's error with exact errno values recovered through wrapped chains before the lossy sentinel table and EIO as default, and that SetXattr/RemoveXattr fail locally. Right level: transparency is the identity of a composition of two finite tables, both read from the source, so no hand-written expectation of field names is needed and all argument values are covered at once.",
+         "Does not decide that bytes survive the wire (C01), that a fid denotes the right File over a history (C04/C05/C08) or chunk arithmetic (C11). Field derivations are recognised through conversions, slices, clamps and one level of helper/local indirection; anything else is reported.",
+         "DESIGN.md section 4 C03, section 3 E"),
+ "C10": ("shape and fact rules on the allocator, fid-release discipline from path facts at every fidPool.Put (error side of the binding request / confirmed clunk behind the closed CAS), event ordering in sendRecv (waiter stored before send, entry removed on every exit), table rules for handleOne's lookup/demultiplexing/broadcast, min/max counting of token releases in waitAndRecv",
+         "Static decision that the allocator never hands out 0/NOTAG/NOFID or a value twice (under its mutex), that a fid number returns to the pool only when the server provably no longer has it bound, that a call registers its waiter before its request leaves and leaves no waiter behind on any exit, that a reply is delivered to exactly the waiter of its tag (unknown tags and wrong types rejected, Rlerror accepted), that a receive error fails every pending call, and that the receive token is given back exactly once on every path that took it. Right level: no-hang/no-cross-delivery reduce to these pairing and ordering facts; reply-order permutations cannot reorder them.",
+         "Liveness of the select protocol under a real scheduler and concrete reply-order permutations are not decided.",
+         "DESIGN.md section 4 C10"),
 }
 
 NOT_YET = "check not built yet (work in progress; DESIGN.md section 4 describes the planned static rules)"
